@@ -337,6 +337,7 @@ def run(chk):
 
     flush(force=True)
     full_stack(chk)
+    closing_message_cases(chk)
     chk.assumptions += [
         'the session layer is replaced by a recorder for the framing runs (FramingProbe); the full ContactHandler is driven by C01/C04/C17',
         'extension-item lists are compared as opaque blobs (the receiver keeps them so); itemisation is proved for the independent reader (C07_ext_roundtrip)',
@@ -436,6 +437,52 @@ def full_stack(chk):
             _compare_one_sided(chk, sims, sc)
             sims = []
     _compare_one_sided(chk, sims, sc)
+
+
+def closing_message_cases(chk):
+    ''' 6. A message which makes the endpoint close, followed by more messages in the same read: nothing after it
+    may be acted on, however the stream is cut. The closing message available without a TLS stack is a contact
+    header that violates the local TLS policy (require_tls with a peer which does not offer TLS). '''
+    import tcpcl_sim as ts
+    from props import c17
+    rng, tier = chk.rng, chk.tier
+    for i in range(16 if tier == 'quick' else 200):
+        passive = rng.random() < 0.5
+        adv = c17.Adversary(rng, passive, {'require_tls': True})
+        x, sim = adv.x, adv.sim
+        sim.start(x)
+        adv.drain()
+        data = bytes(rng.getrandbits(8) for _ in range(rng.choice([0, 3, 40])))
+        msgs = [{'k': 'contact', 'flags': 0},
+                {'k': 'sess_init', 'keepalive': 0, 'seg_mru': 2 ** 64 - 1, 'xfer_mru': 2 ** 64 - 1, 'node': b'dtn://peer/'.hex(), 'ext': ''},
+                {'k': 'xfer_segment', 'flags': 3, 'tid': 1, 'ext': tu.ext_blob([(0, 1, len(data).to_bytes(8, 'big'))]).hex(), 'data': data.hex()}]
+        stream = b''.join(tu.rfc_encode(m) for m in msgs[:rng.choice([2, 3])])
+        n = len(stream)
+        cuts = [] if rng.random() < 0.5 else sorted(rng.sample(range(1, n), min(rng.choice([1, 2, 3]), n - 1)))
+        chunks = split(stream, cuts)
+        chk.case({'closing_message': True, 'passive': passive, 'n': n, 'cuts': cuts})
+        chk.count('closing-message')
+        bad = None
+        for ch in chunks:
+            if x.closed():
+                break
+            sim.rx_bytes(x, ch)
+            if x.obs[-1].get('escaped'):
+                bad = ('C07:acted-after-close-escape-%s' % x.obs[-1]['escaped'],
+                       'exception %s escapes the read callback: octets after the message which closed the connection were still dispatched' % x.obs[-1]['escaped'])
+                break
+        adv.drain()
+        if bad is None:
+            sigs = [s['sig'] for o in x.obs for s in o['sigs']]
+            if not x.closed():
+                bad = ('C07:policy-violating-contact-not-closed', 'require_tls is set, the peer does not offer TLS, and the connection stays open')
+            elif str(x.h._state) == 'established' or bool(x.h._in_sess) or any(sg.startswith('recv_bundle') for sg in sigs):
+                bad = ('C07:acted-after-close', 'messages which followed the closing contact header in the same read were acted on (state %s, in session %s, signals %s)'
+                       % (x.h._state, bool(x.h._in_sess), [sg for sg in sigs if sg.startswith('recv_bundle')]))
+            elif any(m['k'] == 'sess_init' for m in adv.frames()) and passive:
+                bad = ('C07:acted-after-close', 'a SESS_INIT was written although the contact header had closed the connection')
+        if bad:
+            chk.violation(bad[0], bad[1], {'passive': passive, 'chunks': [c2.hex() for c2 in chunks], 'events': x.events})
 
 
 def _compare_one_sided(chk, sims, sc):
